@@ -361,8 +361,10 @@ def h_exact(ctx):
     else:
         e = em.Plus(xi, xr)
         ctx.check(e.type.is_real_type(), "exact:real-absorbs", "int + real is not typed real")
-        e = em.Div(xi, xi)
-        ctx.check(e.type.is_real_type(), "exact:div-real", "a quotient is not typed real")
+        with ctx.untraced():
+            fn = up.model.Fluent("fn", tm.IntType(), environment=env)
+        e = em.Div(xi, em.FluentExp(fn))
+        ctx.check(e.type.is_real_type(), "exact:div-real", "a quotient of ints is not typed real")
     ctx.witness("exact")
 
 
@@ -373,8 +375,9 @@ class _P:
     """Numeric proxy.  kind: 'int' (z3 Int term, optionally a 64-bit BV twin), 'rat' (z3 Real term, exact),
     'fp' (z3 Float64 term).  Python semantics of the operators used by interval arithmetic."""
 
-    def __init__(self, eng, kind, term, bv=None):
-        self.eng, self.kind, self.term, self.bv = eng, kind, term, bv
+    def __init__(self, eng, kind, term, bv=None, finite=False):
+        # finite: (fp only) known to be neither infinite nor NaN by construction (quotient of bounded non-zero ints)
+        self.eng, self.kind, self.term, self.bv, self.is_finite = eng, kind, term, bv, finite or kind != "fp"
 
     # -- conversions
     def real(self):
@@ -431,7 +434,8 @@ class _P:
         if op == "/":
             self.eng.nonzero(b)
             if a.kind == "int" and b.kind == "int":  # int / int: correctly rounded float quotient
-                return _P(self.eng, "fp", z3.fpDiv(z3.RNE(), a.fp(), b.fp()))
+                # |a|, |b| < 2^63 and b != 0 (BV twins)  =>  |a/b| < 2^63: finite, not NaN
+                return _P(self.eng, "fp", z3.fpDiv(z3.RNE(), a.fp(), b.fp()), finite=a.bv is not None and b.bv is not None)
             return _P(self.eng, "rat", a.real() / b.real())
         if a.kind == "int" and b.kind == "int":
             t = {"+": a.term + b.term, "-": a.term - b.term, "*": a.term * b.term}[op]
@@ -500,7 +504,7 @@ class _P:
             if o != o:
                 return op == "!="
             big = o > 0
-            if self.kind == "fp":  # the proxy itself may be infinite
+            if self.kind == "fp" and not self.is_finite:  # the proxy itself may be infinite
                 t = z3.fpIsInf(self.term)
                 pos = z3.And(t, z3.Not(z3.fpIsNegative(self.term)))
                 neg = z3.And(t, z3.fpIsNegative(self.term))
@@ -510,7 +514,7 @@ class _P:
                          ">=": same if big else z3.BoolVal(True)}
                 return self.eng.decide(table[op])
             return {"==": False, "!=": True, "<": big, "<=": big, ">": not big, ">=": not big}[op]
-        if self is o and self.kind != "fp":
+        if (self is o or self.term.eq(o.term)) and self.is_finite and o.is_finite and self.kind == o.kind:
             return op in ("==", "<=", ">=")
         if self.kind == "fp" and o.kind == "fp":
             f = {"==": z3.fpEQ, "!=": z3.fpNEQ, "<": z3.fpLT, "<=": z3.fpLEQ, ">": z3.fpGT, ">=": z3.fpGEQ}[op]
@@ -519,7 +523,8 @@ class _P:
         t = {"==": x == y, "!=": x != y, "<": x < y, "<=": x <= y, ">": x > y, ">=": x >= y}[op]
         if self.kind == "fp" or o.kind == "fp":  # an infinite float compares by sign, a finite one by value
             fpx = self if self.kind == "fp" else o
-            self.eng.finite(fpx)
+            if not fpx.is_finite:
+                self.eng.finite(fpx)
         return self.eng.decide(t)
 
     def __eq__(self, o):
@@ -552,29 +557,39 @@ class _Eng:
     def __init__(self, ctx, timeout_ms=20000):
         import z3
 
-        self.ctx, self.pc, self.n = ctx, [], 0
+        self.ctx, self.pc, self.n, self.known = ctx, [], 0, {}
         self.z3 = z3
         self.timeout_ms = timeout_ms
 
-    def _feasible(self, extra):
+    def feasible(self):
+        """is the path condition satisfiable?  (only asked when the real code raises on the path)"""
         s = self.z3.Solver()
         s.set("timeout", self.timeout_ms)
-        s.add(self.pc + [extra])
-        return s.check() != self.z3.unsat  # unknown counts as feasible (never prunes a real path)
+        s.add(self.pc)
+        return s.check()
 
     def decide(self, cond):
+        """Fork on a symbolic condition.  Feasibility is NOT checked here (floating-point queries are expensive):
+        the literal joins the path condition, which is part of the final query; an infeasible path ends unsat."""
         z3 = self.z3
         cond = z3.simplify(cond)
         if z3.is_true(cond):
             return True
         if z3.is_false(cond):
             return False
+        key = cond.sexpr()
+        if key in self.known:
+            return self.known[key]
         v = bool(self.ctx.choice(f"br{self.n}", 2))
         self.n += 1
         lit = cond if v else z3.Not(cond)
-        self.ctx.assume(self._feasible(lit))
         self.pc.append(lit)
+        self.known[key] = v
         return v
+
+    def assume_fact(self, cond):
+        self.pc.append(cond)
+        self.known[self.z3.simplify(cond).sexpr()] = True
 
     def sign(self, p):
         if self.decide(p.real() > 0 if p.kind != "fp" else self.z3.fpGT(p.term, self.z3.FPVal(0.0, self.z3.Float64()))):
@@ -609,7 +624,7 @@ def _proxy_fraction(eng):
             if isinstance(numerator, _P) or isinstance(denominator, _P):
                 n = numerator if isinstance(numerator, _P) else _P(eng, "int", z3.IntVal(0))._lift(numerator)
                 if denominator is None:
-                    if n.kind == "fp":
+                    if n.kind == "fp" and not n.is_finite:
                         eng.finite(n)  # Fraction(inf) / Fraction(nan) raise
                     return _P(eng, "rat", n.real())
                 d = denominator if isinstance(denominator, _P) else n._lift(denominator)
@@ -690,11 +705,9 @@ def h_divconst(ctx, dividend, mag_bits=53, small=None, real_dividend=False):
 
     if ctx.mode == "replay":
         # the recorded model is judged by the real code alone
-        ctx.forall(None, real_verdict, "div-interval-unsound", "replayed")
-        for m in ctx.models:
-            if real_verdict(m["model"]):
-                ctx.fail("div-interval-unsound", "the inferred type of a division by a non-zero integer constant does not "
-                         f"contain the exact quotient: {ctx.notes.get('real') if hasattr(ctx, 'notes') else m['model']}")
+        ctx.forall(None, real_verdict, "div-interval-unsound",
+                   "the inferred type of a division by a non-zero integer constant does not contain the exact quotient "
+                   f"(recorded operands: {[m['model'] for m in ctx.models]})")
         return
 
     import z3
@@ -712,6 +725,7 @@ def h_divconst(ctx, dividend, mag_bits=53, small=None, real_dividend=False):
 
     (r, rbv) = sym_int("r")
     eng.pc.append(rbv != 0)
+    eng.assume_fact(r.term != 0)
     qv = {"r": r.term}
     lo = hi = None
     if dividend in ("const", "interval", "lower"):
@@ -738,8 +752,14 @@ def h_divconst(ctx, dividend, mag_bits=53, small=None, real_dividend=False):
             TypeChecker.walk_div(tc, None, [TL, TR])
         finally:
             tcm.Fraction = saved
-    except ZeroDivisionError:
-        ctx.fail("div-raises", "walk_div raises ZeroDivisionError for a non-zero divisor")
+    except (ZeroDivisionError, _Unsupported, OverflowError, ValueError) as exc:
+        f = eng.feasible()
+        if f == z3.unsat:
+            ctx.assume(False)  # the branch decisions taken on this path are contradictory
+        if f == z3.unknown:
+            ctx.forall_unknown += 1
+            ctx.assume(False)
+        ctx.fail(f"div-raises:{type(exc).__name__}", f"walk_div raises {type(exc).__name__} for a non-zero integer divisor: {exc}")
     ctx.check(len(senv.type_manager.calls) == 1 and senv.type_manager.calls[0][0] == "real", "div-not-real",
               "walk_div did not build exactly one RealType")
     _k, rl, ru = senv.type_manager.calls[0]
@@ -754,17 +774,34 @@ def h_divconst(ctx, dividend, mag_bits=53, small=None, real_dividend=False):
     zl, zu = as_real(rl), as_real(ru)
 
     def build():
-        v = z3.Real("v")  # a value of the dividend
-        dom = []
-        if lo is not None:
-            dom.append(v >= lo.real())
-        if hi is not None:
-            dom.append(v <= hi.real())
-        q = v / r.real()
-        bad = ([q < zl] if zl is not None else []) + ([q > zu] if zu is not None else [])
-        if not bad:
+        # v / r is monotone in v and [zl, zu] is convex: some value of the dividend escapes iff an endpoint escapes, or the
+        # dividend is unbounded towards a side on which the result has a bound.  Division-free, split on the sign of r.
+        rr = r.real()
+        pos, neg = rr > 0, rr < 0
+
+        def escapes(p):  # p / r < zl or p / r > zu
+            lowp = ([p < zl * rr] if zl is not None else [])
+            upp = ([p > zu * rr] if zu is not None else [])
+            lown = ([p > zl * rr] if zl is not None else [])
+            upn = ([p < zu * rr] if zu is not None else [])
+            return z3.Or(z3.And(pos, z3.Or(lowp + upp)), z3.And(neg, z3.Or(lown + upn)))
+
+        cases = []
+        for end, towards_minus in ((lo, True), (hi, False)):
+            if end is not None:
+                cases.append(escapes(end.real()))
+            else:  # v -> -inf (towards_minus) or +inf
+                lower_hit = pos if towards_minus else neg   # quotient -> -inf
+                upper_hit = neg if towards_minus else pos   # quotient -> +inf
+                if zl is not None:
+                    cases.append(lower_hit)
+                if zu is not None:
+                    cases.append(upper_hit)
+        if lo is hi and lo is not None:
+            cases = cases[:1]
+        if not cases:
             return False, qv
-        return z3.And(eng.pc + dom + [z3.Or(bad)]), qv
+        return z3.And(eng.pc + [z3.Or(cases)]), qv
 
     ctx.note("encoding", "float" if any(isinstance(b, _P) and _has_fp(b.term) for b in (rl, ru)) else "exact")
     ctx.forall(build, real_verdict, "div-interval-unsound",
@@ -862,35 +899,90 @@ def _sym_combos(n, kinds):
     return out
 
 
-def shards(tier, seed):
-    import itertools
+NM = {"+": "plus", "-": "minus", "*": "times", "/": "div"}
+# reduced concrete pools for the deeper trees of the quick tier: one representative per sign pattern
+POOL7 = ["i0", "i1", "i4", "i9", "i13", "r8", "k4"]           # (None,None) (None,-2) (-3,None) (-3,3) (2,2) real(-3/2,1/2) 1/2
+POOL16 = ["i0", "i1", "i3", "i4", "i6", "i8", "i9", "i10", "i13", "i14", "r0", "r3", "r4", "r8", "k0", "k4"]
 
+
+def shards(tier, seed):
     out = []
     quick = tier == "quick"
-    B, PP = (100, 20) if quick else (900, 40)
+    B, PP = (150, 20) if quick else (900, 40)
 
     def sym(name, shape, combos, op_lists, **kw):
         out.append(dict(name="sym-" + name, fn="h_interval", kwargs=dict(shape=shape, combos=combos, op_lists=op_lists, **kw),
                         budget=B, per_path=PP))
 
-    def conc(name, shape, combos=None, kinds=None, op_lists=None, ops=None):
-        kw = dict(shape=shape)
-        if combos is not None:
-            kw["combos"] = combos
-        if kinds is not None:
-            kw["kinds"] = kinds
-        if op_lists is not None:
-            kw["op_lists"] = op_lists
-        if ops is not None:
-            kw["ops"] = ops
-        out.append(dict(name="conc-" + name, fn="h_interval", kwargs=kw, budget=B, per_path=PP, engine="direct", query_timeout=20))
+    def conc(name, shape, kinds, op_lists):
+        out.append(dict(name="conc-" + name, fn="h_interval", kwargs=dict(shape=shape, kinds=kinds, op_lists=op_lists),
+                        budget=B, per_path=PP, engine="direct", query_timeout=20))
 
-    # ---- sym: 1 and 3 nodes: every kind combination
-    sym("leaf", "leaf", _sym_combos(1, SYM_KINDS), [[]])
-    sym("bin-plus-minus", "bin", _sym_combos(2, SYM_KINDS), [["+"], ["-"]])
+    def div(name, **kw):
+        # FloatingPoint queries take 10-40 s of CPU each on the unrepaired tree (pure LRA and instant once walk_div is exact)
+        out.append(dict(name="div-" + name, fn="h_divconst", kwargs=kw, budget=400 if quick else 1500, engine="direct",
+                        query_timeout=300 if quick else 900))
+
+    PAIRS = [[a, b] for a in "+-*" for b in "+-*"]          # [top, inner] in pre-order
+    PAIRS4 = [[a, b] for a in "+-*/" for b in "+-*/"]
+    K = conc_kinds()
     c2 = _sym_combos(2, SYM_KINDS)
-    for k0 in SYM_KINDS:
-        sym(f"bin-times-{k0}", "bin", [c for c in c2 if c[0] == k0], [["*"]])
+
+    # ---- layer 1, symbolic bounds and constants: every 1- and 3-node tree over every leaf-kind combination (both tiers)
+    sym("leaf", "leaf", _sym_combos(1, SYM_KINDS), [[]])
+    sym("bin-plus-minus", "bin", c2, [["+"], ["-"]])
+    for nm, firsts in (("Ib", ["Ib"]), ("half", ["Il", "Iu"]), ("In-c-q", ["In", "c", "q"]), ("Rb", ["Rb"])):
+        sym(f"bin-times-{nm}", "bin", [c for c in c2 if c[0] in firsts], [["*"]])
+    # ---- layer 1, concrete bounds, every 3-node tree over the full pool (both tiers)
+    conc("bin-plus-minus", "bin", K, [["+"], ["-"]])
+    conc("bin-times-div", "bin", K, [["*"], ["/"]])
+    if quick:
+        slim = [["Ib", "Ib", "c"], ["c", "Ib", "Ib"], ["Ib", "c", "Il"], ["Iu", "Ib", "Ib"]]
+        for shape in ("left", "right"):
+            sym(f"{shape}-top-plus-minus", shape, slim, [p for p in PAIRS if p[0] in "+-"])
+            sym(f"{shape}-top-times", shape, slim, [p for p in PAIRS if p[0] == "*"])
+            conc(f"{shape}-top-plus-minus", shape, POOL7, [p for p in PAIRS4 if p[0] in "+-"])
+            conc(f"{shape}-top-times-div", shape, POOL7, [p for p in PAIRS4 if p[0] in "*/"])
+        sym("nary3-plus", "nary3", _sym_combos(3, ["Ib", "Il", "Iu", "c", "Rb"]), [["+"]])
+        sym("nary3-times", "nary3", _sym_combos(3, ["Ib", "c"]) + [["Iu", "Ib", "c"], ["Ib", "Il", "Iu"]], [["*"]])
+        sym("nary4-plus", "nary4", _sym_combos(4, ["Ib", "c"]), [["+"]])
+        sym("nary4-times", "nary4", [["Ib", "c", "c", "Ib"], ["c", "Ib", "Ib", "c"], ["Ib", "Ib", "c", "c"]], [["*"]])
+        conc("nary", "nary3", POOL7 + ["k0"], [["+"], ["*"]])
+        div("const-small", dividend="const", small=1000)
+        div("const-2^53", dividend="const")
+        div("interval-small", dividend="interval", small=1000)
+        div("lower-small", dividend="lower", small=1000)
+    else:
+        I4 = ["Ib", "Il", "Iu", "c"]
+        for p in PAIRS:
+            for shape in ("left", "right"):
+                sym(f"{shape}-{NM[p[0]]}-{NM[p[1]]}-int", shape, _sym_combos(3, I4 + ["In"]), [p])
+                sym(f"{shape}-{NM[p[0]]}-{NM[p[1]]}-real", shape, [c for c in _sym_combos(3, ["Ib", "Rb", "c", "q"]) if "Rb" in c or "q" in c], [p])
+        sym("bin-halves", "bin", _sym_combos(2, ["Ib", "c", "Rb", "q"]), [["+"], ["-"], ["*"]], den=2)
+        sym("nary3-plus", "nary3", _sym_combos(3, SYM_KINDS), [["+"]])
+        for k0 in I4:
+            sym(f"nary3-times-{k0}", "nary3", [c for c in _sym_combos(3, I4) if c[0] == k0], [["*"]])
+        sym("nary3-times-real", "nary3", [c for c in _sym_combos(3, ["Ib", "Rb", "q"]) if "Rb" in c or "q" in c], [["*"]])
+        sym("nary4-plus", "nary4", _sym_combos(4, ["Ib", "Iu", "c", "Rb"]), [["+"]])
+        sym("nary4-times", "nary4", _sym_combos(4, ["Ib", "c"]), [["*"]])
+        for shape in ("nary-in-bin", "bin-in-nary"):
+            sym(f"{shape}", shape, _sym_combos(4, ["Ib", "c"]), [[a, b] for a in "+-*" for b in "+*"] if shape == "nary-in-bin"
+                else [[a, b] for a in "+*" for b in "+-*"])
+        for shape in ("left", "right"):
+            for top in "+-*/":
+                conc(f"{shape}-top-{NM[top]}", shape, POOL16, [p for p in PAIRS4 if p[0] == top])
+        conc("nary3-plus", "nary3", K, [["+"]])
+        conc("nary3-times", "nary3", K, [["*"]])
+        conc("nary4", "nary4", POOL7 + ["k0", "i10", "r3"], [["+"], ["*"]])
+        for shape in ("nary-in-bin", "bin-in-nary"):
+            conc(f"{shape}", shape, POOL7, [[a, b] for a in "+-*/" for b in "+*"] if shape == "nary-in-bin"
+                 else [[a, b] for a in "+*" for b in "+-*/"])
+        for d in ("const", "interval", "lower", "upper"):
+            div(f"{d}-2^53", dividend=d)
+            div(f"{d}-small", dividend=d, small=1000)
+        div("real-interval-2^53", dividend="interval", real_dividend=True)
+        div("real-const-2^53", dividend="const", real_dividend=True)
+    # ---- layer 1b and layer 3
     out.append(dict(name="exact", fn="h_exact", kwargs={}, budget=B, per_path=PP))
     out.append(dict(name="symmetry", fn="h_symmetry", kwargs={}, budget=B, engine="direct"))
     return out
